@@ -382,10 +382,19 @@ func (k *Keeper) ApplyMessageWithConfig(ctx sdk.Context,
 	if contractCreation {
 		// take over the nonce management from evm:
 		// - reset sender's nonce to msg.Nonce() before calling evm.
-		// - increase sender's nonce by one no matter the result.
+		// - increase sender's nonce by one no matter the result, but never below the
+		//   nonce the account had before: when a Cosmos tx carries further messages of
+		//   this sender, the ante handler has incremented the sequence for them already
+		//   and those increments must survive (otherwise the later messages of the tx
+		//   could be delivered a second time).
+		nonceBefore := stateDB.GetNonce(sender.Address())
 		stateDB.SetNonce(sender.Address(), msg.Nonce())
 		ret, _, leftoverGas, vmErr = evm.Create(sender, msg.Data(), leftoverGas, msg.Value())
-		stateDB.SetNonce(sender.Address(), msg.Nonce()+1)
+		nonceAfter := msg.Nonce() + 1
+		if nonceBefore > nonceAfter {
+			nonceAfter = nonceBefore
+		}
+		stateDB.SetNonce(sender.Address(), nonceAfter)
 	} else {
 		ret, leftoverGas, vmErr = evm.Call(sender, *msg.To(), msg.Data(), leftoverGas, msg.Value())
 	}
